@@ -285,7 +285,28 @@ impl Ranges {
         };
 
         ranges.deserialize_inner(seq, parsed_value_seed)?;
+
+        // only a type, e.g. `["u8"]`
+        if ranges.is_empty() {
+            return Err(serde::de::Error::custom(Error::EmptyRange));
+        }
+
         Ok(ranges)
+    }
+
+    fn is_empty(&self) -> bool {
+        match &self.inner {
+            UntypedRangesInner::I8(ranges) => ranges.is_empty(),
+            UntypedRangesInner::I16(ranges) => ranges.is_empty(),
+            UntypedRangesInner::I32(ranges) => ranges.is_empty(),
+            UntypedRangesInner::I64(ranges) => ranges.is_empty(),
+            UntypedRangesInner::U8(ranges) => ranges.is_empty(),
+            UntypedRangesInner::U16(ranges) => ranges.is_empty(),
+            UntypedRangesInner::U32(ranges) => ranges.is_empty(),
+            UntypedRangesInner::U64(ranges) => ranges.is_empty(),
+            UntypedRangesInner::F32(ranges) => ranges.is_empty(),
+            UntypedRangesInner::F64(ranges) => ranges.is_empty(),
+        }
     }
 
     pub fn from_type(range_type: RangeType) -> Self {
